@@ -980,6 +980,12 @@ func pureTextBody(c *core.Ctx, fn *ssa.Function, depth int, onStack map[*ssa.Fun
 				case full == "fmt.Sprintf" || full == "fmt.Sprint" || strings.HasPrefix(full, "strings.") || strings.HasPrefix(full, "strconv."):
 				case strings.HasPrefix(full, "(reflect.Value).") && !strings.Contains(full, "Set") && !strings.Contains(full, "Call"):
 				case full == "reflect.TypeOf" || full == "reflect.ValueOf" || full == "reflect.Indirect":
+				case strings.HasPrefix(full, "(*strings.Builder)."):
+					// (writes into a builder: a local one, since no store outside the function's own variables passes)
+					if al, isAl := core.Norm(com.Args[0]).(*ssa.Alloc); !isAl || al.Parent() != fn {
+						return false
+					}
+				case strings.HasPrefix(full, "(*sync/atomic.") && cal.Name() == "Load":
 				default:
 					return false
 				}
